@@ -585,10 +585,17 @@ def check_property(pid, tier, seed, replay=None):
             for j, rs in enumerate(sres):
                 kind, at = case_status(rs)
                 if kind in ("O", "BAD"):
+                    # a failing input that is a listed known finding (or does not recur) is not the reason the obligation
+                    # broke: keep searching, and fall through to `no-failing-input-found` if nothing else turns up
+                    pre = prop.shape_key(search_cases[j], rs) if hasattr(prop, "shape_key") else None
+                    if pre and pre in known_keys:
+                        continue
+                    before = len(violations)
                     cases.append(search_cases[j]); per_case.append(rs)
                     report(len(cases) - 1, kind)
-                    found = True
-                    break
+                    if len(violations) > before:
+                        found = True
+                        break
         if not found:
             what = []
             if proof_broken:
